@@ -729,6 +729,23 @@ fn write_cases(t: Tier) -> Vec<WCase> {
     }
     // simplest first
     v.sort_by_key(|c| (c.conv.is_some(), c.events.len()));
+    // empty write calls between, after and instead of real ones: a call that moves no byte changes nothing -
+    // neither what the next flush shows nor what the drop persists
+    for kind in [Kind::Write, Kind::Append] {
+        for existing in [false, true] {
+            let w = |x: &[u8]| Ev::W(x.to_vec());
+            for evs in [
+                vec![w(b"abc"), w(b""), Ev::F],
+                vec![w(b"abc"), w(b"")],
+                vec![w(b""), w(b"abc"), w(b""), Ev::F, w(b"de"), w(b"")],
+                vec![w(b"")],
+                vec![w(b""), Ev::F],
+                vec![w(b"ab"), Ev::F, w(b""), Ev::F, w(b"c"), w(b""), w(b"")],
+            ] {
+                v.push(WCase { kind, existing, events: evs, conv: None });
+            }
+        }
+    }
     // single write calls far larger than any internal buffer (after everything else): a handle may not cap,
     // split or drop part of one call's data
     let big = |n: usize, salt: usize| -> Vec<u8> { (0..n).map(|i| b'a' + ((i * 7 + i / 251 + salt) % 26) as u8).collect() };
@@ -1024,6 +1041,16 @@ fn run_wcase<V: VirtualFileSystem>(mk: &dyn Fn() -> Wb<V>, c: &WCase, st: &mut W
             Ev::W(chunk) => {
                 let mut off = 0;
                 let mut guard = 0;
+                if chunk.is_empty() {
+                    // one raw write call that moves no byte (write_all would not call the handle at all)
+                    st.calls += 1;
+                    match catch_unwind(AssertUnwindSafe(|| h.0.as_mut().unwrap().write(&[]))) {
+                        Err(e) => return Some((format!("{} {} handle: write panic", b.name, c.kind.name()), head(&format!("write(\"\") panicked: {}", panic_message(&e))))),
+                        Ok(Err(e)) => return Some((format!("{} {} handle: write unexpected error", b.name, c.kind.name()), head(&format!("write(\"\") failed: {}", e)))),
+                        Ok(Ok(0)) => {},
+                        Ok(Ok(k)) => return Some((format!("{} {} handle: write returned an impossible count", b.name, c.kind.name()), head(&format!("write of 0 bytes returned Ok({})", k)))),
+                    }
+                }
                 while off < chunk.len() {
                     guard += 1;
                     st.calls += 1;
